@@ -441,19 +441,19 @@ func (s *State) symValue(t types.Type, name string, depth int, nonNil bool) Valu
 		return VArray{e}
 	case *types.Pointer:
 		if depth <= 0 {
-			return VPtr{Obj: -1, Nil: namedVar((name+"==nil"), BoolSort)}
+			return VPtr{Obj: -1, Nil: namedVar((name + "==nil"), BoolSort)}
 		}
 		inner := s.symValue(u.Elem(), "*"+name, depth-1, false)
 		p := s.allocCell(inner, false, name)
 		s.heap[p.Obj].T = u.Elem()
 		if !nonNil {
-			p.Nil = namedVar((name+"==nil"), BoolSort)
+			p.Nil = namedVar((name + "==nil"), BoolSort)
 		}
 		return p
 	case *types.Slice:
-		ln := namedVar((name+".len"), BV(64))
-		cp := namedVar((name+".cap"), BV(64))
-		isnil := namedVar((name+"==nil"), BoolSort)
+		ln := namedVar((name + ".len"), BV(64))
+		cp := namedVar((name + ".cap"), BV(64))
+		isnil := namedVar((name + "==nil"), BoolSort)
 		s.assume(ULe(ln, cp))
 		s.assume(ULe(cp, Const(64, 1<<maxLenBits)))
 		s.assume(Implies(isnil, Eq(cp, Const(64, 0))))
@@ -465,11 +465,11 @@ func (s *State) symValue(t types.Type, name string, depth int, nonNil bool) Valu
 		}
 		return VSlice{Obj: id, Off: Const(64, 0), Len: ln, Cap: cp, Nil: isnil}
 	case *types.Interface:
-		return VIface{ID: namedVar((name+"#id"), BV(64)), Nil: namedVar((name+"==nil"), BoolSort)}
+		return VIface{ID: namedVar((name + "#id"), BV(64)), Nil: namedVar((name + "==nil"), BoolSort)}
 	case *types.Signature:
-		return VOpaque{T: t, ID: namedVar((name+"#fn"), BV(64))}
+		return VOpaque{T: t, ID: namedVar((name + "#fn"), BV(64))}
 	}
-	return VOpaque{T: t, ID: namedVar((name+"#opq"), BV(64))}
+	return VOpaque{T: t, ID: namedVar((name + "#opq"), BV(64))}
 }
 
 // bytes.Buffer is modelled on its real fields buf/off (contents = buf[off:len(buf)]) with
